@@ -157,6 +157,8 @@ pub fn walk_world(rep: &mut Rep, name: &str, walks: u64, steps: usize, mk: &dyn 
         w.rich_pubs = k % 4 >= 2 && w.max_packet.is_none();
         // ... and lets every second subscribe() carry three topic filters (only where no Maximum Packet Size limits them)
         w.multi_filter = k % 3 != 0 && w.max_packet.is_none();
+        // ... and every eighth walk has publishes of 70 000 bytes and more among its requests
+        w.huge_pubs = k % 8 == 3 && w.max_packet.is_none();
         // every third walk starts with the identifier counters at a boundary (hook H2); nothing has been allocated yet
         if k % 3 == 1 && w.m.is_empty() {
             let pids = [200u16, 250, 255, 256, 300, 0x7ff0, 0x7fff, 0xfff0, 65530, 65535];
